@@ -39,6 +39,9 @@ type MitigationParams struct {
 	FailoverAtEnd bool `json:"failover_at_end"`
 	// RollbackAtEnd (with TransientEnd): the re-open is answered with a rollback to 1 (the consumer had reached 2)
 	RollbackAtEnd bool `json:"rollback_at_end"`
+	// SeqAdv: the third event behind the marker is a seqno-advanced event (collection-filtered streams) instead of
+	// a document: it waits at the gate like a document and is absorbed (moves the position) only once covered
+	SeqAdv bool `json:"seq_adv"`
 }
 
 // persistence feeds of one copy (uA = the branch the stream was opened on, uB = another branch)
@@ -92,6 +95,8 @@ func init() {
 				{Scenario: "c07_gate", Params: mustJSON(MitigationParams{Replicas: 1, TransientEnd: true}), Bound: b - 1, Shards: 8, Note: "transient end and re-open once the feeds are static: the established threshold still applies"},
 				{Scenario: "c07_gate", Params: mustJSON(MitigationParams{Replicas: 1, TransientEnd: true, FailoverAtEnd: true}), Bound: b - 1, Shards: 8, Note: "the re-opened stream comes back under another vbUUID: the threshold established so far still applies"},
 				{Scenario: "c07_gate", Params: mustJSON(MitigationParams{Replicas: 1, TransientEnd: true, RollbackAtEnd: true}), Bound: b - 1, Shards: 8, Note: "the re-open is answered with a rollback: what the copies reported before it still counts (they may never report again)"},
+				{Scenario: "c07_gate", Params: mustJSON(MitigationParams{Replicas: 1, CloseAt: true, SeqAdv: true}), Bound: b - 1, Shards: 8, Note: "a seqno-advanced event waits at the gate when the stream is closed: it is released without being absorbed"},
+				{Scenario: "c07_gate", Params: mustJSON(MitigationParams{Replicas: 1, SeqAdv: true}), Bound: b - 1, Shards: 8, Note: "a seqno-advanced event behind two documents: absorbed only once covered"},
 				{Scenario: "c07_rebalance", Params: mustJSON(struct{}{}), Bound: 0, Note: "the session after a real Rebalance() with a slow re-open and copies that keep reporting the same figures"},
 				{Scenario: "c07_gate", Params: mustJSON(MitigationParams{Replicas: 1, Stall: true}), Bound: 0, Shards: 8, Note: "the DCP thread stalls for two observe intervals at every scheduling point (lost wake-up between the gate's check and its wait)"},
 			}
@@ -360,6 +365,8 @@ func gateMain(p MitigationParams) {
 		c.Append(0, symbolPacket("M", 3))
 	} else if p.TransientEnd || p.EpochAssign {
 		c.Append(0, marker(1, 3), symbolPacket("M", 1), symbolPacket("M", 2))
+	} else if p.SeqAdv {
+		c.Append(0, marker(1, 3), symbolPacket("M", 1), symbolPacket("M", 2), symbolPacket("SEQ", 3))
 	} else {
 		c.Append(0, marker(1, 3), symbolPacket("M", 1), symbolPacket("M", 2), symbolPacket("M", 3))
 	}
@@ -426,6 +433,13 @@ func gateMain(p MitigationParams) {
 		if len(e.Cons.Events) != before {
 			vrt.Failf("%s: %d waiting events were delivered after Close() had returned", desc, len(e.Cons.Events)-before)
 		}
+		// nothing the copies have not jointly persisted was handed on in any form: neither to the consumer nor to
+		// its offset tracker (a released non-document event must not be absorbed)
+		for _, s := range e.Cons.TrackSeq[0] {
+			if s > maxQualified {
+				vrt.Failf("%s: the offset tracker was told position %d although the listed copies have never all reported >= %d (best %d) - an event released by the close was absorbed", desc, s, s, maxQualified)
+			}
+		}
 		if !c.Idle() {
 			vrt.Failf("%s: closing the stream did not release the event waiting at the gate", desc)
 		}
@@ -443,6 +457,14 @@ func gateMain(p MitigationParams) {
 	for s := uint64(1); s <= 3; s++ {
 		if p.Rollback && s < 3 {
 			continue // at or below the rollback point / not on the new branch
+		}
+		if p.SeqAdv && s == 3 {
+			// (not a document: "delivered" = absorbed, the offset tracker heard of it)
+			for _, ts := range e.Cons.TrackSeq[0] {
+				if ts == 3 {
+					delivered[3] = true
+				}
+			}
 		}
 		if s <= uint64(lastThreshold) && !delivered[s] {
 			vrt.Failf("%s: event seq %d is covered by the threshold %d but was never delivered (lost wake-up)", desc, s, lastThreshold)
